@@ -70,7 +70,9 @@ struct Sched {
   uint64_t rng = 1;
   int mode = 0;                   // 0 = non-preemptive + preempt_at, 1 = random at every point
   bool deadlock = false, budget = false;
-  long max_events = 60000;
+  // step budget (livelock detector).  One insertion may legitimately search 2*(S^5-1)/(S-1) buckets (BFS, depth 5), each
+  // with ~6 synchronisation events: ~5*10^4 events for S=8.  The budget therefore grows with the slots per bucket.
+  long max_events = VH_S > 4 ? 60000L * 32 : 60000;
   uint64_t next() { rng ^= rng << 13; rng ^= rng >> 7; rng ^= rng << 17; return rng; }
 } S;
 
